@@ -30,30 +30,7 @@ func (l *vfE5Life) closeAll() {
 			c.RUnlock()
 		}
 	}
-	if os.Getenv("VERIF_DBG") != "" {
-		for _, t := range l.topics() {
-			fmt.Printf("E5DBG before exit %s depth=%d paused=%v", t.name, t.Depth(), t.IsPaused())
-			for _, c := range l.chans(t) {
-				fmt.Printf(" %s:depth=%d,n=%d", c.name, c.Depth(), c.messageCount)
-			}
-			fmt.Println()
-		}
-	}
-	dbgT := l.topics()
-	dbgC := map[string][]*Channel{}
-	for _, t := range dbgT {
-		dbgC[t.name] = l.chans(t)
-	}
 	l.n.Exit()
-	if os.Getenv("VERIF_DBG") != "" {
-		for _, t := range dbgT {
-			fmt.Printf("E5DBG after exit %s backend=%d paused=%v n=%d", t.name, t.backend.Depth(), t.IsPaused(), t.messageCount)
-			for _, c := range dbgC[t.name] {
-				fmt.Printf(" %s:backend=%d,n=%d", c.name, c.backend.Depth(), c.messageCount)
-			}
-			fmt.Println()
-		}
-	}
 	sort.Slice(subs, func(i, j int) bool { return subs[i] < subs[j] })
 	var closed []string
 	for _, k := range subs {
@@ -257,14 +234,6 @@ func TestVerifE5RestartCorr(t *testing.T) {
 			nextK := l.nextK
 			l = vfE5NewLife(t, out, r, dir, memq, hist)
 			l.nextK = nextK
-			if os.Getenv("VERIF_DBG") != "" {
-				fmt.Println("E5DBG after new: " + l.dump())
-				ents, _ := os.ReadDir(dir)
-				for _, e := range ents {
-					i, _ := e.Info()
-					fmt.Println("E5DBG   ", e.Name(), i.Size())
-				}
-			}
 			l.op(fmt.Sprintf("reload %d", memq), "ok")
 			l.out.Case("filesexact", vfE5Files(l.dir))
 			l.settle()
